@@ -231,3 +231,25 @@ example : (locClear { wk := "s3cret" } 100 c19Example).2 = .ok () ∧
   have hv : guardsVerdict {} 100 c19Example (guardsOf "GetFact") = .ok () := by decide
   rw [locGetFact_split, guarded_eq (guardFresh_of_b (by decide)), hv]
   rfl
+
+/-! ## The request's context is pointed at the addressed location
+
+Hooks (cron), rule actions (`Env.AddFact` …) and the JavaScript timeout read "the current location" from the caller's
+`Context`; callers reuse contexts across locations.  The models address every operation to an explicit location, which
+is sound exactly when every entry point of the Location API points the context at its own location before it touches
+the state.  `Gen.locationPointsCtx` is regenerated from `core/location.go` on every run. -/
+
+/-- the entry points of the Location API through which requests (and rule actions) reach the state -/
+def ctxEntryPoints : List String :=
+  ["RuleEnabled", "EnableRule", "AddRule", "RemRule", "GetRule", "AddFact", "addFact", "RemFact", "GetFact", "searchFacts",
+   "searchRules", "SearchRules", "ListRules", "GetParents", "SetParents", "Clear", "RunJavascript", "Query", "Delete"]
+
+/-- **Every entry point points the context at its own location before touching the state** (regenerated table). -/
+theorem entry_points_point_ctx : ∀ m ∈ ctxEntryPoints, (m, true) ∈ Gen.locationPointsCtx := by decide
+
+/-- the remaining state-touching methods that take a context are helpers reached only through an entry point (guards,
+property access, the ancestor walk) or pure delegations: nothing new takes a context and skips `SetLoc` unnoticed -/
+theorem ctx_helpers_are_known :
+    (Gen.locationPointsCtx.filter (fun r => !r.2)).map (·.1) =
+      ["CheckWrite", "CheckRead", "StateSize", "AtCapacity", "Enabled", "Have", "SetProp", "RemProp", "DoAncestors", "SearchFacts",
+       "GetPropString", "GetProp"] := by decide
